@@ -1,0 +1,313 @@
+// Verification contracts (comment-only, compiled only with the "verif" build tag; read by /verif/govc).
+
+//go:build verif
+// +build verif
+
+package state
+
+// Property C10 — "a copy of a state is equal to and independent of the original" (clause 1: copy completeness and independence)
+// and the write-set completeness of IntermediateRoot / Commit (clause 3). Reopening from roots and root determinism are NOT decided
+// here (trie = C13, reflective RLP = C14).
+//
+// Pattern of a copy contract: one conjunct per field of the struct ("equal": a field dropped from the copy function makes its
+// conjunct fail) and freshness of the result and of every mutable component reachable from it ("independent": *big.Int, slice
+// backing array, map). Byte strings that no function of the package ever writes in place (public keys, Ext.Data, hashes, code)
+// are compared by value and may be shared; that sharing is listed in props/C10.json → assumptions.
+
+// ---------------------------------------------------------------------------------------------------------------
+// DelegationFrom (delegation.go)
+//@ func (*DelegationFrom).DeepCopy props C10, C08
+//@ panics none
+//@ requires [nonnil] d != nil && d.Stake != nil && d.Token != nil
+//@ modifies nothing
+//@ ensures [fresh]  result != nil && fresh(result) && fresh(result.Stake) && fresh(result.Token) && result.Stake != result.Token
+//@ ensures [equal]  result.Delegator == d.Delegator && big(result.Stake) == big(d.Stake) && big(result.Token) == big(d.Token)
+
+// ---------------------------------------------------------------------------------------------------------------
+// ValKindStat / ValidatorsStat (validator.go)
+//@ func (ValKindStat).DeepCopy props C10
+//@ panics none
+//@ requires [nonnil] v.onlineStake != nil && v.onlineToken != nil && v.offlineStake != nil && v.offlineToken != nil && v.rewardsResidue != nil && v.rewardsDistributable != nil
+//@ modifies nothing
+//@ ensures [fresh]  result != nil && fresh(result) && fresh(result.onlineStake) && fresh(result.onlineToken) && fresh(result.offlineStake) && fresh(result.offlineToken) &&
+//@     fresh(result.rewardsResidue) && fresh(result.rewardsDistributable)
+//@ ensures [distinct] result.onlineStake != result.onlineToken && result.onlineStake != result.offlineStake && result.onlineStake != result.offlineToken &&
+//@     result.onlineStake != result.rewardsResidue && result.onlineStake != result.rewardsDistributable && result.onlineToken != result.offlineStake &&
+//@     result.onlineToken != result.offlineToken && result.onlineToken != result.rewardsResidue && result.onlineToken != result.rewardsDistributable &&
+//@     result.offlineStake != result.offlineToken && result.offlineStake != result.rewardsResidue && result.offlineStake != result.rewardsDistributable &&
+//@     result.offlineToken != result.rewardsResidue && result.offlineToken != result.rewardsDistributable && result.rewardsResidue != result.rewardsDistributable
+//@ ensures [equal-online]  big(result.onlineStake) == big(v.onlineStake) && big(result.onlineToken) == big(v.onlineToken) && result.onlineCount == v.onlineCount
+//@ ensures [equal-offline] big(result.offlineStake) == big(v.offlineStake) && big(result.offlineToken) == big(v.offlineToken) && result.offlineCount == v.offlineCount
+//@ ensures [equal-rewards] big(result.rewardsResidue) == big(v.rewardsResidue) && big(result.rewardsDistributable) == big(v.rewardsDistributable)
+
+// ---------------------------------------------------------------------------------------------------------------
+// WithdrawRecord / WithdrawQueue (validator.go)
+//@ func (*WithdrawRecord).DeepCopy props C10
+//@ panics none
+//@ requires [nonnil] u != nil
+//@ modifies nothing
+//@ ensures [fresh]  result != nil && fresh(result) && (u.InitialBalance != nil ==> fresh(result.InitialBalance)) && (u.FinalBalance != nil ==> fresh(result.FinalBalance)) &&
+//@     (u.InitialBalance != nil && u.FinalBalance != nil ==> result.InitialBalance != result.FinalBalance)
+//@ ensures [equal-addresses] result.Operator == u.Operator && result.Delegator == u.Delegator && result.Validator == u.Validator && result.Recipient == u.Recipient
+//@ ensures [equal-heights]   result.Nonce == u.Nonce && result.CreationHeight == u.CreationHeight && result.CompletionHeight == u.CompletionHeight &&
+//@     result.Finished == u.Finished && result.TxHash == u.TxHash
+//@ ensures [equal-balances]  (u.InitialBalance == nil ==> result.InitialBalance == nil) && (u.InitialBalance != nil ==> big(result.InitialBalance) == big(u.InitialBalance)) &&
+//@     (u.FinalBalance == nil ==> result.FinalBalance == nil) && (u.FinalBalance != nil ==> big(result.FinalBalance) == big(u.FinalBalance))
+
+// ---------------------------------------------------------------------------------------------------------------
+// Validator (validator.go). All 24 fields, in declaration order:
+//   Name OperatorAddress Coinbase Role Status Expelled ExpelExpired LastInactive MainPubKey BlsPubKey Token Stake SelfToken SelfStake
+//   RewardsDistributable RewardsTotal RewardsLastSettled AcceptDelegation CommissionRate RiskObligation Delegations Ext deleted consAddr
+//@ spec func c10ValAmountsOK(v: *Validator) bool =
+//@     v.Token != nil && v.Stake != nil && v.SelfToken != nil && v.SelfStake != nil && v.RewardsDistributable != nil && v.RewardsTotal != nil
+//@ spec func c10ValFreshAmounts(r: *Validator) bool =
+//@     r.Token != r.Stake && r.Token != r.SelfToken && r.Token != r.SelfStake && r.Token != r.RewardsDistributable && r.Token != r.RewardsTotal &&
+//@     r.Stake != r.SelfToken && r.Stake != r.SelfStake && r.Stake != r.RewardsDistributable && r.Stake != r.RewardsTotal &&
+//@     r.SelfToken != r.SelfStake && r.SelfToken != r.RewardsDistributable && r.SelfToken != r.RewardsTotal &&
+//@     r.SelfStake != r.RewardsDistributable && r.SelfStake != r.RewardsTotal && r.RewardsDistributable != r.RewardsTotal
+
+// PartialCopy: a deep copy whose delegation LIST is its own (fresh array) while the list ENTRIES are shared with the original
+// (entries are replaced, never written in place). The list used to be shared too — repaired in /repo b2db95c.
+//@ func (*Validator).PartialCopy props C10, C08
+//@ panics none
+//@ requires [nonnil] v != nil && c10ValAmountsOK(v)
+//@ modifies nothing
+//@ ensures [fresh] result != nil && fresh(result) && fresh(result.Token) && fresh(result.Stake) && fresh(result.SelfToken) && fresh(result.SelfStake) &&
+//@     fresh(result.RewardsDistributable) && fresh(result.RewardsTotal) && c10ValFreshAmounts(result)
+//@ ensures [equal-identity] result.Name == v.Name && result.OperatorAddress == v.OperatorAddress && result.Coinbase == v.Coinbase && result.Role == v.Role &&
+//@     result.MainPubKey == v.MainPubKey && result.BlsPubKey == v.BlsPubKey
+//@ ensures [equal-status]   result.Status == v.Status && result.Expelled == v.Expelled && result.ExpelExpired == v.ExpelExpired && result.LastInactive == v.LastInactive &&
+//@     result.deleted == v.deleted
+//@ ensures [equal-amounts]  big(result.Token) == big(v.Token) && big(result.Stake) == big(v.Stake) && big(result.SelfToken) == big(v.SelfToken) && big(result.SelfStake) == big(v.SelfStake)
+//@ ensures [equal-rewards]  big(result.RewardsDistributable) == big(v.RewardsDistributable) && big(result.RewardsTotal) == big(v.RewardsTotal) &&
+//@     result.RewardsLastSettled == v.RewardsLastSettled
+//@ ensures [equal-terms]    result.AcceptDelegation == v.AcceptDelegation && result.CommissionRate == v.CommissionRate && result.RiskObligation == v.RiskObligation
+//@ ensures [equal-ext]      result.Ext.Version == v.Ext.Version && result.Ext.Data == v.Ext.Data && result.Ext.extV1.LastActive == v.Ext.extV1.LastActive
+//@ ensures [equal-address-cache] result.consAddr.v == v.consAddr.v
+//@ ensures [equal-delegations] len(result.Delegations) == len(v.Delegations) &&
+//@     (forall a: int :: { elems(result.Delegations)[a] } off(result.Delegations) <= a && a < off(result.Delegations) + len(result.Delegations) ==>
+//@         elems(result.Delegations)[a] == elems(v.Delegations)[a - off(result.Delegations) + off(v.Delegations)])
+// The copy owns its delegation list: UpdateDelegationFrom edits the list in place and the original is what the journal keeps as the old value (C08 clause 5).
+//@ ensures [delegations-fresh] fresh(result.Delegations) && cap(result.Delegations) == len(result.Delegations)
+
+// Lists are described over ABSOLUTE indices of the backing array (`elems(s)[a]`, off(s) <= a < off(s)+len(s)): a quantifier whose
+// only index term is the bound variable has a usable trigger, `s[i]` (= array[off+i]) does not (engine_requests/C10.md R2).
+//@ spec func c10AsDlg(p: *DelegationFrom) *DelegationFrom = p
+// Every listed delegation exists with both amounts (what the RLP decoder and UpdateDelegation produce).
+//@ spec func c10DlgsOK(v: *Validator) bool =
+//@     forall a: int :: { elems(v.Delegations)[a] } off(v.Delegations) <= a && a < off(v.Delegations) + len(v.Delegations) ==>
+//@         c10AsDlg(elems(v.Delegations)[a]) != nil && c10AsDlg(elems(v.Delegations)[a]).Stake != nil && c10AsDlg(elems(v.Delegations)[a]).Token != nil
+// Entry at absolute index a of r's list is a copy of the corresponding entry of v's list (same position relative to the list start).
+//@ spec func c10DlgCopied(r: *Validator, v: *Validator, a: int) bool =
+//@     c10AsDlg(elems(r.Delegations)[a]).Delegator == c10AsDlg(elems(v.Delegations)[a - off(r.Delegations) + off(v.Delegations)]).Delegator &&
+//@     big(c10AsDlg(elems(r.Delegations)[a]).Stake) == big(c10AsDlg(elems(v.Delegations)[a - off(r.Delegations) + off(v.Delegations)]).Stake) &&
+//@     big(c10AsDlg(elems(r.Delegations)[a]).Token) == big(c10AsDlg(elems(v.Delegations)[a - off(r.Delegations) + off(v.Delegations)]).Token)
+//@ spec func c10DlgFresh(r: *Validator, a: int) bool =
+//@     c10AsDlg(elems(r.Delegations)[a]) != nil && fresh(c10AsDlg(elems(r.Delegations)[a])) && fresh(c10AsDlg(elems(r.Delegations)[a]).Stake) && fresh(c10AsDlg(elems(r.Delegations)[a]).Token) &&
+//@     c10AsDlg(elems(r.Delegations)[a]).Stake != c10AsDlg(elems(r.Delegations)[a]).Token
+
+// DeepCopy: PartialCopy plus an own delegation list whose entries are fresh copies.
+//@ func (*Validator).DeepCopy props C10
+//@ panics none
+//@ overflow checked
+//@ requires [nonnil] v != nil && c10ValAmountsOK(v) && c10DlgsOK(v)
+//@ modifies all(elems(*DelegationFrom))      // engine: a loop cut havocs the whole element heap, so "only fresh arrays change" is not provable (engine_requests/C10.md R1);
+//@                                           // the source list is stated intact explicitly instead
+//@ loop #1 invariant [range] -1 <= rangeindex && rangeindex < len(v.Delegations) && len(v.Delegations) > 0
+//@ loop #1 invariant [own-list] fresh(newVal) && fresh(newVal.Delegations) && len(newVal.Delegations) == len(v.Delegations)
+//@ loop #1 invariant [source-intact] elems(v.Delegations) == old(elems(v.Delegations)) && c10DlgsOK(v)
+//@ loop #1 invariant [copied] forall a: int :: { elems(newVal.Delegations)[a] } off(newVal.Delegations) <= a && a <= off(newVal.Delegations) + rangeindex ==>
+//@     c10DlgFresh(newVal, a) && c10DlgCopied(newVal, v, a)
+//@ loop #1 decreases len(v.Delegations) - rangeindex
+//@ ensures [fresh] result != nil && fresh(result) && fresh(result.Token) && fresh(result.Stake) && fresh(result.SelfToken) && fresh(result.SelfStake) &&
+//@     fresh(result.RewardsDistributable) && fresh(result.RewardsTotal) && c10ValFreshAmounts(result)
+//@ ensures [equal-identity] result.Name == v.Name && result.OperatorAddress == v.OperatorAddress && result.Coinbase == v.Coinbase && result.Role == v.Role &&
+//@     result.MainPubKey == v.MainPubKey && result.BlsPubKey == v.BlsPubKey
+//@ ensures [equal-status]   result.Status == v.Status && result.Expelled == v.Expelled && result.ExpelExpired == v.ExpelExpired && result.LastInactive == v.LastInactive &&
+//@     result.deleted == v.deleted
+//@ ensures [equal-amounts]  big(result.Token) == big(v.Token) && big(result.Stake) == big(v.Stake) && big(result.SelfToken) == big(v.SelfToken) && big(result.SelfStake) == big(v.SelfStake)
+//@ ensures [equal-rewards]  big(result.RewardsDistributable) == big(v.RewardsDistributable) && big(result.RewardsTotal) == big(v.RewardsTotal) &&
+//@     result.RewardsLastSettled == v.RewardsLastSettled
+//@ ensures [equal-terms]    result.AcceptDelegation == v.AcceptDelegation && result.CommissionRate == v.CommissionRate && result.RiskObligation == v.RiskObligation
+//@ ensures [equal-ext]      result.Ext.Version == v.Ext.Version && result.Ext.Data == v.Ext.Data && result.Ext.extV1.LastActive == v.Ext.extV1.LastActive
+//@ ensures [equal-address-cache] result.consAddr.v == v.consAddr.v
+//@ ensures [source-intact] v.Delegations == old(v.Delegations) && elems(v.Delegations) == old(elems(v.Delegations))
+//@ ensures [delegations-equal] len(result.Delegations) == len(v.Delegations) &&
+//@     (forall a: int :: { elems(result.Delegations)[a] } off(result.Delegations) <= a && a < off(result.Delegations) + len(result.Delegations) ==> c10DlgCopied(result, v, a))
+//@ ensures [delegations-independent] len(v.Delegations) > 0 ==> fresh(result.Delegations) &&
+//@     (forall a: int :: { elems(result.Delegations)[a] } off(result.Delegations) <= a && a < off(result.Delegations) + len(result.Delegations) ==> c10DlgFresh(result, a))
+// An EMPTY list with spare capacity (left by a deleted delegation) must not be shared either: the next append of original and copy would write the same cell.
+//@ ensures [empty-list-independent] len(v.Delegations) == 0 ==> cap(result.Delegations) == 0 || fresh(result.Delegations)
+
+// ---------------------------------------------------------------------------------------------------------------
+// WithdrawQueue.DeepCopy: a fresh queue with a fresh list of fresh record copies, position by position.
+//@ spec func c10AsRec(p: *WithdrawRecord) *WithdrawRecord = p
+//@ spec func c10RecCopied(c: *WithdrawRecord, u: *WithdrawRecord) bool =
+//@     c != nil && fresh(c) && (u.InitialBalance != nil ==> fresh(c.InitialBalance)) && (u.FinalBalance != nil ==> fresh(c.FinalBalance)) &&
+//@     c.Operator == u.Operator && c.Delegator == u.Delegator && c.Validator == u.Validator && c.Recipient == u.Recipient &&
+//@     c.Nonce == u.Nonce && c.CreationHeight == u.CreationHeight && c.CompletionHeight == u.CompletionHeight && c.Finished == u.Finished && c.TxHash == u.TxHash &&
+//@     (u.InitialBalance == nil ==> c.InitialBalance == nil) && (u.InitialBalance != nil ==> big(c.InitialBalance) == big(u.InitialBalance)) &&
+//@     (u.FinalBalance == nil ==> c.FinalBalance == nil) && (u.FinalBalance != nil ==> big(c.FinalBalance) == big(u.FinalBalance))
+
+//@ func (WithdrawQueue).DeepCopy props C10
+//@ panics none
+//@ overflow checked
+//@ requires [nonnil] forall a: int :: { elems(q.Records)[a] } off(q.Records) <= a && a < off(q.Records) + len(q.Records) ==> c10AsRec(elems(q.Records)[a]) != nil
+//@ modifies all(elems(*WithdrawRecord))      // see (*Validator).DeepCopy
+//@ loop #1 invariant [range] -1 <= rangeindex && rangeindex < len(q.Records)
+//@ loop #1 invariant [own-list] fresh(queue) && fresh(queue.Records) && len(queue.Records) == len(q.Records)
+//@ loop #1 invariant [source-intact] elems(q.Records) == old(elems(q.Records))
+//@ loop #1 invariant [copied] forall a: int :: { elems(queue.Records)[a] } off(queue.Records) <= a && a <= off(queue.Records) + rangeindex ==>
+//@     c10RecCopied(c10AsRec(elems(queue.Records)[a]), c10AsRec(elems(q.Records)[a - off(queue.Records) + off(q.Records)]))
+//@ loop #1 decreases len(q.Records) - rangeindex
+//@ ensures [fresh] result != nil && fresh(result) && fresh(result.Records)
+//@ ensures [source-intact] elems(q.Records) == old(elems(q.Records))
+//@ ensures [equal-and-independent] len(result.Records) == len(q.Records) &&
+//@     (forall a: int :: { elems(result.Records)[a] } off(result.Records) <= a && a < off(result.Records) + len(result.Records) ==>
+//@         c10RecCopied(c10AsRec(elems(result.Records)[a]), c10AsRec(elems(q.Records)[a - off(result.Records) + off(q.Records)])))
+
+// ---------------------------------------------------------------------------------------------------------------
+// stakingRecord.DeepCopy (staking_record.go): fresh record, fresh amount, fresh hash list with the same hashes.
+//@ func (*stakingRecord).DeepCopy props C10
+//@ panics none
+//@ requires [nonnil] sr != nil && sr.record.FinalValue != nil
+//@ modifies nothing
+//@ ensures [fresh] result != nil && fresh(result) && fresh(result.record.FinalValue) && fresh(result.record.TxHashes)
+//@ ensures [equal-value]  big(result.record.FinalValue) == big(sr.record.FinalValue)
+//@ ensures [equal-hashes] len(result.record.TxHashes) == len(sr.record.TxHashes) &&
+//@     (forall i: int :: 0 <= i && i < len(sr.record.TxHashes) ==> result.record.TxHashes[i] == sr.record.TxHashes[i])
+
+// ---------------------------------------------------------------------------------------------------------------
+// stateObject (state_object.go). All 16 fields: address addrHash data{Nonce Balance Root CodeHash DelegationBalance DelegationsHash} db dbErr
+//   trie code originStorage pendingStorage dirtyStorage dirtyCode suicided deleted delegations dirtyDlgs
+
+// Storage.Copy: a fresh map with exactly the source's keys and values. With the engine's `visited` set the functional clauses
+// (fresh / equal-keys / equal-values, loop invariants "cpy == s restricted to visited") DO verify against the body; what does not is the
+// frame `modifies nothing`: the loop cut havocs the map heaps of every Storage (engine_requests/C10.md R1) and there is no `modifies`
+// form for "all maps of a type". The callers need the frame, so the contract is TRUSTED as a whole (body: `cpy[key] = value`).
+//@ func (Storage).Copy props C10
+//@ trusted
+//@ modifies nothing
+//@ ensures result != nil && fresh(result) && mapdom(result) == mapdom(s) && mapval(result) == mapval(s) && len(result) == len(s)
+
+// Hashing has no effect on modelled state (its value is not modelled: addrHash equality of a copy is not decided).
+//@ effectfree github.com/youchainhq/go-youchain/crypto.Keccak256Hash
+// Copying a trie handle (C13's subject) has no effect on the heap model.
+//@ func (Database).CopyTrie props C10
+//@ trusted
+//@ pure
+
+// deepCopy(db): the copy belongs to db and equals the original field by field; its storage maps are fresh.
+// Balance / DelegationBalance / CodeHash / DelegationsHash / code are shared with the original: no function of the package writes them in
+// place (balances are replaced by new big.Ints), see props/C10.json → assumptions.
+//@ func (*stateObject).deepCopy props C10
+//@ panics none
+//@ requires [nonnil] so != nil && db != nil && so.data.Balance != nil && so.data.DelegationBalance != nil && !isnil(so.data.CodeHash)
+//@ modifies nothing
+//@ ensures [fresh] result != nil && fresh(result) && fresh(result.originStorage) && fresh(result.pendingStorage) && fresh(result.dirtyStorage) &&
+//@     result.originStorage != result.pendingStorage && result.originStorage != result.dirtyStorage && result.pendingStorage != result.dirtyStorage
+//@ ensures [owner] result.db == db
+//@ ensures [equal-identity] result.address == so.address
+//@ ensures [equal-account]  result.data.Nonce == so.data.Nonce && big(result.data.Balance) == big(so.data.Balance) && result.data.Root == so.data.Root &&
+//@     result.data.CodeHash == so.data.CodeHash && big(result.data.DelegationBalance) == big(so.data.DelegationBalance) && result.data.DelegationsHash == so.data.DelegationsHash
+//@ ensures [equal-code]     result.code == so.code && result.dirtyCode == so.dirtyCode
+//@ ensures [equal-storage]  mapdom(result.originStorage) == mapdom(so.originStorage) && mapval(result.originStorage) == mapval(so.originStorage) &&
+//@     mapdom(result.pendingStorage) == mapdom(so.pendingStorage) && mapval(result.pendingStorage) == mapval(so.pendingStorage) &&
+//@     mapdom(result.dirtyStorage) == mapdom(so.dirtyStorage) && mapval(result.dirtyStorage) == mapval(so.dirtyStorage)
+//@ ensures [equal-flags]    result.suicided == so.suicided && result.deleted == so.deleted
+//@ ensures [trie-copied]    (so.trie == nil ==> result.trie == nil)
+// The delegator-side index: an uncommitted list exists only in the object (its blob is written at Commit), so the copy must carry it
+// (it used to be dropped: the copy panicked on GetCountOfDelegateTo — repaired in /repo ea0cffe). A list that is not loaded (nil) stays nil.
+//@ ensures [equal-delegations] len(result.delegations) == len(so.delegations) && (isnil(so.delegations) <==> isnil(result.delegations)) &&
+//@     (forall i: int :: 0 <= i && i < len(so.delegations) ==> result.delegations[i] == so.delegations[i])
+//@ ensures [delegations-independent] !isnil(so.delegations) ==> fresh(result.delegations)
+//@ ensures [equal-dirty-delegations] result.dirtyDlgs == so.dirtyDlgs
+//@ // NOT-DECIDED: ensures [equal-addrHash] result.addrHash == so.addrHash   (Keccak is not modelled)
+//@ // NOT-DECIDED: ensures [equal-dbErr] result.dbErr == so.dbErr           (the memoised error is deliberately not copied, as in go-ethereum)
+
+// ---------------------------------------------------------------------------------------------------------------
+// Clause 2: (*StateDB).Copy. Thin: which components the copy holds and that they are the copies produced by the functions above.
+// The per-key completeness of the five map loops (dirty / pending state objects, dirty validators, staking records) is NOT decided:
+// see props/C10.json → not_decided.
+
+// Copy functions not (yet) verified against their bodies — ASSUMED thin contracts (fresh result, no effect on existing objects):
+// ValidatorIndex.DeepCopy ranges a sync.Map through a closure; ValidatorsStat.DeepCopy and pendingRelationship.DeepCopy fill maps in loops
+// (functional part provable like Validator.DeepCopy / Storage.Copy, the frame is not: engine_requests/C10.md R1).
+//@ func (*ValidatorIndex).DeepCopy props C10
+//@ trusted
+//@ requires index != nil
+//@ modifies nothing
+//@ ensures result != nil && fresh(result)
+
+//@ func (*ValidatorsStat).DeepCopy props C10
+//@ trusted
+//@ requires m != nil
+//@ modifies nothing
+//@ ensures result != nil && fresh(result)
+
+//@ func (*pendingRelationship).DeepCopy props C10
+//@ trusted
+//@ requires p != nil
+//@ modifies nothing
+//@ ensures result != nil && fresh(result)
+
+// getWithdrawQueue may load the queue from the validator trie and cache it (trie + RLP: trusted frame).
+//@ func (*StateDB).getWithdrawQueue props C10
+//@ trusted
+//@ requires st != nil
+//@ modifies st.withdrawQueue, st.dbErr
+//@ ensures result0 != nil
+
+//@ func newJournal props C10
+//@ panics none
+//@ modifies nothing
+//@ ensures result != nil && fresh(result) && len(result.entries) == 0 && fresh(result.dirties) && len(result.dirties) == 0
+
+// What the composite literal at the top of Copy establishes (scalars equal to the source's entry values, own containers). The two validator
+// loops call sync.Map.Store, whose `modifies m` cannot be resolved statically for the loop write set, so the engine havocs the whole heap at
+// their heads (engine_requests/C10.md R3): the facts are carried through them as loop invariants.
+//@ spec func c10Shell(state: *StateDB, st: *StateDB) bool =
+//@     state != nil && fresh(state) && state.refund == old(st.refund) && state.logSize == old(st.logSize) &&
+//@     state.validatorsStatModified == old(st.validatorsStatModified) && state.pendingRelatsDirty == old(st.pendingRelatsDirty) && state.db == old(st.db) &&
+//@     fresh(state.stateObjects) && fresh(state.stateObjectsPending) && fresh(state.stateObjectsDirty) && fresh(state.validatorObjectsDirty) && fresh(state.validatorIndex) &&
+//@     fresh(state.stakingRecords) && fresh(state.stakingRecordsDirty) && fresh(state.pendingRelats) && fresh(state.logs) && fresh(state.preimages) &&
+//@     fresh(state.journal) && fresh(state.validatorJournal) && state.withdrawQueue.v == nil && state.validatorsStat.v == nil && state.validatorsSorted.v == nil
+
+//@ func (*StateDB).Copy props C10
+//@ requires st != nil && st.journal != nil && st.validatorJournal != nil && st.validatorIndex != nil && st.pendingRelats != nil
+//@ modifies all
+//@ loop #7 invariant [shell] c10Shell(state, st)
+//@ loop #8 invariant [shell] c10Shell(state, st)
+//@ ensures [fresh] result != nil && fresh(result)
+//@ ensures [refund-equal] result.refund == old(st.refund)
+//@ ensures [logsize-equal] result.logSize == old(st.logSize)
+//@ ensures [flags-equal] result.validatorsStatModified == old(st.validatorsStatModified) && result.pendingRelatsDirty == old(st.pendingRelatsDirty)
+//@ ensures [db-equal] result.db == old(st.db)
+//@ ensures [own-account-maps] fresh(result.stateObjects) && fresh(result.stateObjectsPending) && fresh(result.stateObjectsDirty)
+//@ ensures [own-validator-maps] fresh(result.validatorObjectsDirty) && fresh(result.validatorIndex)
+//@ ensures [own-staking] fresh(result.stakingRecords) && fresh(result.stakingRecordsDirty) && fresh(result.pendingRelats)
+//@ ensures [own-logs] fresh(result.logs) && fresh(result.preimages)
+//@ ensures [own-journals] fresh(result.journal) && fresh(result.validatorJournal)
+//@ ensures [statistics-copied] hastype(result.validatorsStat.v, *ValidatorsStat) && fresh(unbox(result.validatorsStat.v, *ValidatorsStat))
+//@ ensures [queue-copied] result.withdrawQueue.v == nil || (hastype(result.withdrawQueue.v, *WithdrawQueue) && fresh(unbox(result.withdrawQueue.v, *WithdrawQueue)))   // nil: the source queue failed to decode, the copy reloads lazily
+
+// ---------------------------------------------------------------------------------------------------------------
+// Clause 3: write-set completeness of IntermediateRoot (guard contract). Before the three roots are read
+//   * every pending state object is either written (updateStateObject) or, when deleted, removed (deleteStateObject);
+//   * every dirty validator is either written (updateValidator) or removed (deleteValidator: marked deleted, or empty and pruning is on);
+//   * the index, the statistics, the withdraw queue and the staking records have been saved (bit mask in the ghost variable).
+// That the loops visit EVERY member of the dirty sets is the semantics of `range` (not re-proved); what the trie does with the writes is C13.
+//@ ghost var c10Saved: int
+//@ func (*StateDB).IntermediateRoot props C10
+//@ requires st != nil
+//@ modifies all, c10Saved
+//@ assert before call (*stateObject).updateRoot: [live-object-written] !obj.deleted      // updateRoot + updateStateObject follow on this path
+//@ assert before call (*StateDB).deleteStateObject: [deleted-object-removed] obj.deleted
+//@ assert before call (*StateDB).updateValidator: [live-validator-written] !val.deleted
+//@ assert before call (*StateDB).deleteValidator: [dead-validator-removed] val.deleted || deleteEmptyObjects
+//@ ghost after call (*StateDB).saveValidatorsIndex: c10Saved := 1
+//@ ghost after call (*StateDB).saveValidatorsStat: c10Saved := c10Saved + 2
+//@ ghost after call (*StateDB).saveWithdrawQueue: c10Saved := c10Saved + 4
+//@ ghost after call (*StateDB).updateStakingTrie: c10Saved := c10Saved + 8
+//@ assert before call (Trie).Hash#1: [all-saved-before-roots] c10Saved == 15
+//@ assert before call (Trie).Hash#3: [roots-read-last] c10Saved == 15
